@@ -100,9 +100,12 @@ def shrink(pid, fam, bad, workdir):
         return bad
     cur = bad
     budget = 40
-    while budget > 0:
+    t_end = time.time() + 60          # shrinking is a convenience: never let it dominate a failing run
+    while budget > 0 and time.time() < t_end:
         budget -= 1
         cands = fam.shrink_candidates(cur["case"])[:64]
+        if len(cur["case"]) > 20000:
+            cands = cands[:8]         # very large cases (production-size messages): a few candidates per round
         if not cands:
             break
         try:
@@ -173,6 +176,12 @@ def run_property(pid, tier, seed, replay=None):
             proof["broken"].append({"kind": "assumptions", "theorem": "Print Assumptions",
                                     "error": "axioms outside the allowlist: " + ",".join(bad_ax) if bad_ax else pa_out[-800:]})
     n_obl, obl_names = count_obligations(closure)
+    if proof["ok"] and tier == "thorough":
+        okc, chk = coqchk(pid)
+        notes.append("coqchk -o on props/%s.vo and its dependencies: %s" % (pid, json.dumps(chk)))
+        if not okc:
+            proof["ok"] = False
+            proof["broken"].append({"kind": "coqchk", "theorem": "coqchk", "error": json.dumps(chk)})
 
     # 4. build the harness against the working tree
     okb, blog = cargo_build()
